@@ -136,6 +136,9 @@ template <class TM, class SM> struct Harness {
     { WS w1, w2; Eigen::VectorXd g1, g2; double c1 = opt.evaluate(x, g1, tc, rc, &w1), c2 = opt.evaluate(x, g2, tc, ZeroWaypointCost(), rc, &w2); ++c.st.comparisons;
       bool ok = c1 == c2 && g1.size() == g2.size(); for (int i = 0; ok && i < g1.size(); ++i) ok = g1(i) == g2(i);
       if (!ok) { fail("two-cost-overload", "evaluate(x,g,time,running) differs from the three-cost overload with a zero waypoint cost"); return; } }
+    // a copy-constructed and an assigned optimizer return the same cost and gradient (bitwise)
+    { Opt cp(opt); Opt as; as.setIntegralNumSteps(5); as = opt; WS w1, w2; Eigen::VectorXd g1, g2; double c1 = cp.evaluate(x, g1, tc, wc, rc, &w1), c2 = as.evaluate(x, g2, tc, wc, rc, &w2); ++c.st.comparisons;
+      if (!bits_equal(c1, cost) || !bits_equal(c2, cost) || g1.size() != g.size() || g2.size() != g.size() || !bits_equal(g1.data(), g.data(), g.size()) || !bits_equal(g2.data(), g.data(), g.size())) { fail("copy-evaluates-differently", fmt("copy-constructed: %.17g, assigned: %.17g, original: %.17g", c1, c2, cost)); return; } }
     // after an evaluation with the built-in workspace the exposed spline is the one defined by x
     { Eigen::VectorXd g1; opt.evaluate(x, g1, tc, wc, rc); const Sp *os = opt.getOptimalSpline(); ++c.st.comparisons;
       if (!os || !mat_bits_equal(os->getTrajectory().getCoefficients(), C)) { fail("optimal-spline", "getOptimalSpline() is not the spline defined by the evaluated decision vector"); return; } }
